@@ -17,7 +17,7 @@ TEXT = ("Decides the four structural lemmas the implementation's convergence arg
         "of the whole block map that is Ready, and parse every listed block name. L5: meld offers every item of the peer: "
         "each copy loop iterates the peer's whole set and a copy is guarded only by absence on this side, the exclusion of "
         "the other two item classes, and the success of the verified read (no further selection). Relies on C05 (deterministic winner), "
-        "C18 (no order taint), C19 (canonical identifiers), C10/C11 (verified, content-named items). Does not decide "
+        "C18 (no order taint), C19 (canonical identifiers), C10/C11 (verified, content-named items). L1b: every insertion into the revision map is post-dominated by an invalidation of the derived caches. Does not decide "
         "equality of the merged *values* over all histories and delivery orders.")
 TECHNIQUE = 'static analysis over rustc MIR: who-may-write on the revision map, post-dominance of re-validation through rayon closures, iteration-source typing, guard-literal whitelist on meld copies'
 TRUSTED = ["rustc nightly MIR", "HashMap keyed insert / BTreeSet order semantics", "C05, C18, C19, C10, C11"]
